@@ -1,4 +1,5 @@
 #pragma once
+#include <utility>
 
 namespace sqf::parser::sqf::bison
 {
@@ -47,7 +48,7 @@ namespace sqf::parser::sqf::bison
 
         void append(astnode node)
         {
-            children.push_back(node);
+            children.push_back(std::move(node));
         }
         void append_children(const astnode& other)
         { 
@@ -55,6 +56,14 @@ namespace sqf::parser::sqf::bison
             {
                 append(node); 
             } 
+        }
+        void append_children(astnode&& other)
+        {
+            for (auto& node : other.children)
+            {
+                children.push_back(std::move(node));
+            }
+            other.children.clear();
         }
     };
 }
